@@ -2,14 +2,15 @@
 # Sensitivity harness (not a registered check): applies a patch to a scratch worktree of /repo,
 # builds a copy of the simulator against it and runs the named checks at quick size.
 # usage: mutate.sh <patch> <ID> [ID...]     prints one line per check: CAUGHT / MISSED / ERROR
+# env MUT_WT / MUT_SIM / MUT_SRC: scratch worktree, scratch simulator copy, simulator source (to run two at once)
 set -u
 PATCH="$(realpath "$1")"; shift
-WT=/tmp/wt_mut; SIM=/tmp/mut_sim
+WT=${MUT_WT:-/tmp/wt_mut}; SIM=${MUT_SIM:-/tmp/mut_sim}; SRC=${MUT_SRC:-/verif/sim}
 git -C /repo worktree remove --force "$WT" >/dev/null 2>&1
 git -C /repo worktree add --detach "$WT" >/dev/null 2>&1 || { echo "ERROR worktree"; exit 2; }
 if ! git -C "$WT" apply "$PATCH"; then echo "ERROR patch does not apply: $PATCH"; git -C /repo worktree remove --force "$WT"; exit 2; fi
 mkdir -p "$SIM"
-rsync -a --delete --exclude target /verif/sim/ "$SIM/sim/"
+rsync -a --delete --exclude target "$SRC/" "$SIM/sim/"
 cp /verif/known_findings.json "$SIM/"; rm -rf "$SIM/findings"; cp -r /verif/findings "$SIM/"
 sed -i "s#/repo/#$WT/#g" "$SIM/sim/Cargo.toml"
 cd "$SIM/sim" || exit 2
